@@ -651,6 +651,10 @@ def query (x : Ctx) (q : String) : Q String := do
       | "nthnext" => .inl (l.drop (arg + 1))
       | "count" => .inr l.length
       | "hint" => .inr 1
+      | "lastafter" => .inl (l.drop arg).getLast?.toList
+      | "countafter" => .inr (l.drop arg).length
+      | "foldafter" => .inl (l.drop arg)
+      | "nthhuge" => .inl []
       | _ => .inl []
     match kind with
     | "windows" => do
@@ -718,7 +722,15 @@ def query (x : Ctx) (q : String) : Q String := do
     let u (v : Option Nat) : String := match v with | some s => hex2 s | none => "panic"
     let un (has : Bool) (f : Nat → Option Nat) : String :=
       if has ∧ x.symbols.contains b then u (f b) else "none"
-    pure s!"{c.width} {o (c.tryFromBits b)} {u (c.unsafeFromBits b)} {o (c.tryFromAscii b)} {u (c.unsafeFromAscii b)} {c.toChar b} {un (hasComp c) c.comp} {un (hasMask c) c.mask} {un (hasMask c) c.unmask}"
+    -- copying symbol-level forms = the in-place forms (lib.rs: to_owned then mutate)
+    let isSym := x.symbols.contains b
+    let h (v : Option Nat) : String := match v with | some s => hex2 s | none => "panic"
+    let forms :=
+      if ¬ isSym then "-"
+      else if x.name = "miupac" then s!"{h (c.mask b)}{h (c.unmask b)}"
+      else if x.name = "dna" ∨ x.name = "iupac" ∨ x.name = "mdna" then h (c.comp b)
+      else "-"
+    pure s!"{c.width} {o (c.tryFromBits b)} {u (c.unsafeFromBits b)} {o (c.tryFromAscii b)} {u (c.unsafeFromAscii b)} {c.toChar b} {un (hasComp c) c.comp} {un (hasMask c) c.mask} {un (hasMask c) c.unmask} {forms}"
   | "items" => pure (String.join (c.items.map hex2))
   | _ => throw (.badOp s!"unknown query {q}")
 
@@ -729,12 +741,16 @@ def terrStr : Translation.TErr → String
   | .invalidAmino => "terr:invalidamino"
   | .panic => "panic"
 
-def codonTableQuery (x : Ctx) (amino : Codec) : Q String := do
+def codonTableQuery (x : Ctx) (amino : Codec) (keysAreValues : Bool := false) : Q String := do
   let n ← qlift num
   let mut entries : List (Bits × Nat) := []
   for _ in [0:n] do
-    let h ← qlift hexBytes
-    let codon ← qres (Seq.parseBytes x.c h)
+    let codon ← if keysAreValues then do
+        let v ← qlift parseV
+        qr (evalV x v)
+      else do
+        let h ← qlift hexBytes
+        qres (Seq.parseBytes x.c h)
     let i ← qlift num
     entries := entries ++ [(codon, item amino i)]
   let nq ← qlift num
@@ -890,6 +906,8 @@ def special (x : Ctx) (q : String) : Option (Q String) :=
   | _, "derive" => some deriveQuery
   | "dna", "codontable" => some (codonTableQuery x (Gen.amino p))
   | "iupac", "codontable" => some (codonTableQuery x (Gen.amino p))
+  | "dna", "codontablev" => some (codonTableQuery x (Gen.amino p) true)
+  | "iupac", "codontablev" => some (codonTableQuery x (Gen.amino p) true)
   | _, _ => none
 
 def evalLine (p : Profile) (line : String) : String :=
